@@ -2,7 +2,12 @@
     Statements only; proofs are in Proofs/FirstLine.v and Proofs/FlatFits.v. *)
 From PP Require Import Doc Normalize Layout Classic FirstLine FlatFits.
 
-(** Soundness of both fitting predicates against the machine itself: whenever a
+(** The classic algebra here: text, concat, nest, group, line / softline (any
+    flat_choice whose broken branch is a hardline), hardline, always_break,
+    align AND annotate ([Rs]: the machine's stack is the predicate's stack plus
+    the annotation pops the machine has scheduled since).
+
+    Soundness of both fitting predicates against the machine itself: whenever a
     predicate (fast or smart, any page width, ribbon, nesting level) answers
     "fits" with budget [cl] for a pending stack, then the text the machine
     really emits from a corresponding stack up to the next line break - whatever
@@ -12,7 +17,7 @@ Theorem C05_fits_sound :
   forall evs nf smart w rw mnl maxw cl F,
     fits_loop evs nf smart w rw mnl maxw cl F = Some true ->
     forall fuel ff sm' w' rw' M col o out,
-      Forall2 Rt F M -> classic_stk F ->
+      Rs F M -> classic_stk F ->
       layout_loop evs fuel ff sm' w' rw' (mkL M col o) = Some out ->
       exists new, out = rev o ++ new /\ flw new <= cl.
 Proof. exact sim. Qed.
@@ -40,6 +45,11 @@ Print Assumptions C05_flat_fits.
     column 5). *)
 Definition ex_doc : doc :=
   Cat [Text [97;98]%N; Nest 2 (Cat [HardLine; Group (Cat [Text [99]%N; LINE; Text [100]%N])])].
+
+(** an annotated document is classic too *)
+Example C05_annotated_is_classic :
+  classic (Annot (ATok 13) (Group (Cat [Annot (AOther 1) (Text [99]%N); LINE; Align (Text [100]%N)]))) = true.
+Proof. reflexivity. Qed.
 Example C05_nonvacuous :
   classic ex_doc = true /\
   exists k i m x rest col o,
